@@ -20,7 +20,10 @@ Proof. intros Hp Ho Hw Hf. cbn [Lock.step]. rewrite Hp, Ho, Hw, Hf. reflexivity.
 Lemma sem_uncontended_acquire_yields s t v :
   Sem.phase_of s t = Sem.Idle -> Sem.value s = S v -> Sem.waiters s = [] -> Sem.fast s = false ->
   snd (Sem.step s (Sem.AcqBegin t)) = Sem.RBlocked /\ Sem.value (fst (Sem.step s (Sem.AcqBegin t))) = v.
-Proof. intros Hp Hv Hw Hf. cbn [Sem.step]. rewrite Hp, Hv, Hw, Hf. cbn. auto. Qed.
+Proof.
+  intros Hp Hv Hw Hf. cbn [Sem.step]. rewrite Hp. cbn [Sem.is_idle negb]. unfold Sem.acq_body.
+  rewrite Hv, Hw, Hf. cbn. auto.
+Qed.
 
 Lemma limiter_free_acquire_yields s t b :
   Limiter.phase_of s t = Limiter.Idle -> C10Defs.mem b (Limiter.borrowers s) = false -> Limiter.busy s = false ->
